@@ -122,6 +122,13 @@ static int runThreads(uint64_t seed, int nthreads, int nops, const char* logPath
     realLock = PlatformSpecificMutexLock; realUnlock = PlatformSpecificMutexUnlock;
     PlatformSpecificMutexLock = wrapLock; PlatformSpecificMutexUnlock = wrapUnlock;
     MemoryLeakWarningPlugin::turnOnThreadSafeNewDeleteOverloads();
+    if (seed % 2 == 1) {
+        // a save / restore pair around code that must not be tracked (the library does this itself when it creates the global
+        // detector) has to bring the thread-safe overloads back, not the unlocked ones
+        MemoryLeakWarningPlugin::saveAndDisableNewDeleteOverloads();
+        void* untracked = ::operator new(16); ::operator delete(untracked);
+        MemoryLeakWarningPlugin::restoreNewDeleteOverloads();
+    }
     long base = (long) det->totalMemoryLeaks(mem_leak_period_all);
     CppUTestVerif_TableEvent = tableEvent;
     recording.store(true);
@@ -153,10 +160,20 @@ static int runThreads(uint64_t seed, int nthreads, int nops, const char* logPath
 static int misuseKind = 0;
 static int bodyReached = 0, afterMisuse = 0, secondRan = 0, otherThreadOk = 0;
 static char* leakedForLater = NULL;
+static MemoryLeakDetector* secondDetector = NULL;
 static void misuseBody()
 {
     bodyReached = 1;
     MemoryLeakWarningPlugin::turnOnThreadSafeNewDeleteOverloads();
+    if (misuseKind == 3) {
+        // the global detector is replaced while the thread-safe overloads are on (setGlobalDetector is public API): the lock taken
+        // by the wrappers and the lock released on the failure path must both be the current detector's
+        MemoryLeakWarningPlugin::setGlobalDetector(secondDetector, MemoryLeakWarningPlugin::getGlobalFailureReporter());
+        char* q = (char*) ::operator new[](8);
+        q[8] = 'X'; ::operator delete[](q);
+        afterMisuse = 1;
+        return;
+    }
     char* p = (char*) ::operator new[](8);
     if (misuseKind == 0) { p[8] = 'X'; ::operator delete[](p); }          // overrun into the guard bytes, found at release
     else if (misuseKind == 1) { int local = 0; ::operator delete((void*) &local); leakedForLater = p; }   // foreign address
@@ -179,6 +196,7 @@ static int runMisuse(int kind, const char* logPath)
     misuseKind = kind;
     MemoryLeakDetector* det = MemoryLeakWarningPlugin::getGlobalDetector();
     det->enable();
+    if (kind == 3) { secondDetector = new MemoryLeakDetector(MemoryLeakWarningPlugin::getGlobalFailureReporter()); secondDetector->enable(); }
     TestRegistry registry;
     ExecFunctionTestShell t1, t2;
     t1.setGroupName("M"); t1.setTestName("misuse"); t1.setFileName("m.cpp"); t1.setLineNumber(1);
@@ -192,6 +210,7 @@ static int runMisuse(int kind, const char* logPath)
     registry.runAllTests(result);
     std::thread th(otherThread); th.join();
     MemoryLeakWarningPlugin::turnOnDefaultNotThreadSafeNewDeleteOverloads();
+    if (kind == 3) MemoryLeakWarningPlugin::setGlobalDetector(det, MemoryLeakWarningPlugin::getGlobalFailureReporter());
     std::string text = output.getOutput().asCharString();
     std::string cat = text.find("Memory corruption") != std::string::npos ? "corruption" : text.find("Deallocating non-allocated memory") != std::string::npos ? "nonallocated" : "none";
     fprintf(out, "{\"op\":\"misuse\",\"kind\":%d,\"body\":%d,\"after\":%d,\"second\":%d,\"other\":%d,\"failures\":%lu,\"run\":%lu,\"cat\":\"%s\"}\n",
